@@ -5,3 +5,17 @@ pub assume_specification [String::as_bytes] (s: &String) -> (r: &[u8])
     ensures r@ == str_bytes(s@);
 pub assume_specification<T, const N: usize> [<[T; N] as AsRef<[T]>>::as_ref] (a: &[T; N]) -> (r: &[T])
     ensures r@ == a@;
+
+#[verifier::external_type_specification]
+#[verifier::external_body]
+pub struct ExUtf8Error(std::str::Utf8Error);
+/// std::str::from_utf8 on ASCII input (ASCII is valid UTF-8, one byte per char)
+pub assume_specification<'a> [std::str::from_utf8] (v: &'a [u8]) -> (r: std::result::Result<&'a str, std::str::Utf8Error>)
+    ensures all_ascii(v@) ==> (r.is_ok() && r.unwrap().spec_bytes() == v@);
+
+/// Vec::extend(iterable): appends the iterable's elements in order; `iter_seq` names that sequence
+pub uninterp spec fn iter_seq<T, I>(i: I) -> Seq<T>;
+pub assume_specification<T, A: std::alloc::Allocator, I: std::iter::IntoIterator<Item = T>> [<std::vec::Vec<T, A> as std::iter::Extend<T>>::extend] (v: &mut std::vec::Vec<T, A>, i: I)
+    ensures final(v)@ == old(v)@ + iter_seq::<T, I>(i);
+pub broadcast axiom fn axiom_iter_seq_array<T, const N: usize>(a: [T; N])
+    ensures #[trigger] iter_seq::<T, [T; N]>(a) == a@;
